@@ -15,6 +15,8 @@ import RedisVerif.Model.Shards7
   * `route_table_routes_by_first_key`: whenever that row is a default-arm row (`primary`), the key it
     routes by is the FIRST key the M7 command names (`Redis.cmdKeys`): no command of the composed
     node is routed by an argument that is not one of its keys.
+  * `handle_sweeps_table_shards`: the table inside the end-to-end node — when `Server.handle` takes a frame down the
+    generic path, the shards that adopt the frame's time are the ones the row of the parsed command selects.
   * `route_table_rows_distinct`, `route_table_size`: one row per constructor, 127 rows.
 -/
 namespace RedisVerif
@@ -230,6 +232,27 @@ theorem route_table_routes_by_first_key (gc : Grammar.Cmd) (c : Redis.Cmd) (h : 
   obtain ⟨h1, h2⟩ := hl
   subst h1; subst h2
   exact hk hp
+
+/-- **the table inside the end-to-end node**: when the composed node (`Server.handle`) takes a frame down the
+    generic path, the shards that adopt the frame's time are exactly the ones the row of the parsed
+    command selects, and the command runs on them as the sharding model says -/
+theorem handle_sweeps_table_shards (R : Routes) (classify : Server.Classify) (st : Shards Redis.Entry) (now : Nat)
+    (f : Server.Frame) (gc : Grammar.Cmd) (c : Redis.Cmd) (hp : Grammar.parseCmdZc f = .ok gc)
+    (hc : toCmd7 gc = some c) (hg : dispatch (classify f) = .execute) :
+    ∃ r, lookup gc.ctor = some r ∧
+      (Server.handle R classify st now f).1 =
+        (execN M7.exec7 R true (M7.sweep (recvOf R r.arm r.sel gc.toks) now st) (inject now c)).1 := by
+  obtain ⟨r, hr, hrecv⟩ := route_table_is_model_routing R now gc c hc
+  refine ⟨r, hr, ?_⟩
+  have hfun : recvOf R r.arm r.sel gc.toks = recv R (inject now c) := funext hrecv
+  rw [hfun]
+  unfold Server.handle
+  simp only [hp, hc]
+  have : Server.execVia R (classify f) now st c = M7.execNT7code R now st c := by
+    unfold Server.execVia
+    rw [hg]
+  rw [this]
+  cases M7.toM7 (M7.execNT7code R now st c).2 <;> rfl
 
 /-- one row per constructor; 127 variants -/
 theorem route_table_rows_distinct : (routeTable.map (·.ctor)).Nodup := by decide +kernel
